@@ -49,6 +49,7 @@ Print Assumptions C04_F4_requested_size_variant_refuted.
    the parts it yields are non-empty, concatenate to exactly the first
    Content-Length bytes, the stream is left exactly behind them and no read
    reached beyond them. *)
+(* @requires-gen loops.iter_body *)
 Theorem C04_translated_loop_exact :
   forall data sc buf cl,
     0 < buf ->
